@@ -30,7 +30,7 @@ META = {
 def case(draw):
     dk = draw(st.sampled_from(["st4", "st4", "st6"]))
     steep = draw(st.sampled_from([(0.03, 0.09), (0.03, 0.09), None]))
-    c = draw(W.sea_case(max_points=3, kinds=("jonswap", "jonswap", "pm", "swell_sea", "cross_chop", "random"), max_nf=20, steep=steep,
+    c = draw(W.sea_case(max_points=3, kinds=("jonswap", "jonswap", "pm", "swell_sea", "cross_chop", "opposing_seas", "random"), max_nf=20, steep=steep,
                         t0_choices=("zero", "half")))
     n = len(c["points"])
     # wind mostly off the grid directions (aligned winds are the trivial case of this relation)
